@@ -190,7 +190,9 @@ var floatPool = []string{"0", "1", "-1", "2", "0.5", "-0.25", "1.5e3", "1E-2", "
 func (g *gen) float() string { return pick(g.r, floatPool) }
 
 // intFloat: integral values only (keeps the importer on the integer signal type).
-func (g *gen) intFloat() string { return pick(g.r, []string{"0", "1", "2", "-1", "10", "255", "-128", "1e2"}) }
+func (g *gen) intFloat() string {
+	return pick(g.r, []string{"0", "1", "2", "-1", "10", "255", "-128", "1e2"})
+}
 
 func (g *gen) uintTok(max int) string { return strconv.Itoa(g.r.intn(max + 1)) }
 
